@@ -180,11 +180,22 @@ package bridgesync
 
 // ---- reading the events of a block range back (C02, C03, C05: "every exit exactly once and in chain order" rests on
 // this statement's range condition and ordering; assumed semantics A5, text pinned). The table name is the caller's.
-//@ func (p *processor) queryBlockRange (p, tx, fromBlock, toBlock, table)
-//@   props C02 C03 C05
+// the range query behind GetBridges / GetClaims (C02, C03): refused unless the last block of the range has been processed
+// (checked through the same querier), then one statement with exactly the two bounds given, through the querier given
+//@ interface github.com/agglayer/aggkit/db/types.Querier.Query@bridgesync.(*processor).queryBlockRange (self, query, args)
+//@   modifies nothing
+//@   ensures result1 != nil ==> result0 == nil
+//@ func (p *processor) isBlockProcessed (p, tx, blockNum)
 //@   trusted
 //@   modifies nothing
+//@ func (p *processor) queryBlockRange (p, tx, fromBlock, toBlock, table)
+//@   props C02 C03 C05
+//@   requires p != nil && tx != nil
+//@   modifies nothing
 //@   sqltext "SELECT * FROM %s WHERE block_num >= $1 AND block_num <= $2 ORDER BY block_num ASC, block_pos ASC;"
+//@   ensures[error-means-no-rows-object] result1 != nil ==> result0 == nil
+//@   assert call:isBlockProcessed arg1 == tx && arg2 == toBlock
+//@   assert call:Query recv == tx && len(arg1) == 2 && typeIs(arg1[0], uint64) && unbox(arg1[0], uint64) == fromBlock && typeIs(arg1[1], uint64) && unbox(arg1[1], uint64) == toBlock
 // the last processed block (the restart point of the download, C05): bsLastBlockRow is the highest block row, -1 when the
 // table is empty (assumed at the library boundary, A5); the function itself is proved: an empty table - and only that -
 // is answered with block 0, a storage failure is reported and never read as "nothing processed yet"
@@ -206,14 +217,35 @@ package bridgesync
 //@   sqltext "SELECT num FROM block ORDER BY num DESC LIMIT 1;"
 //@   ensures[the-highest-block-row-or-zero-when-empty] result1 == nil ==> result0 == ite(bsLastBlockRow == -1, 0, bsLastBlockRow) && bsLastBlockRow >= -1
 //@   ensures[a-storage-failure-is-reported] result1 == nil ==> bsLastBlockScanFaults == old(bsLastBlockScanFaults)
+// the events of a block range as the certificate builder gets them (C02, C03): one read transaction, the range query for
+// exactly the bounds given over the bridge (resp. claim) table; "not found" from the query is an empty answer, any other
+// failure an error. (The row mapping - meddler.ScanAll, SlicePtrsToSlice - is reflection-driven and assumed, A4.)
+//@ func (p *processor) startTransaction (p, ctx, readOnly)
+//@   trusted
+//@   modifies nothing
+//@   ensures result1 != nil ==> result0 == nil
+//@   ensures result1 == nil ==> result0 != nil
+//@ func (p *processor) rollbackTransaction (p, tx)
+//@   trusted
+//@   modifies nothing
+//@ extern github.com/russross/meddler.ScanAll (rows, dst)
+//@   modifies heap
+//@ extern github.com/agglayer/aggkit/db.SlicePtrsToSlice (slice)
+//@   modifies nothing
 //@ func (p *processor) GetBridges (p, ctx, fromBlock, toBlock)
 //@   props C02 C03
-//@   trusted
 //@   consttext "bridge"
+//@   requires p != nil && p.log != nil
+//@   modifies heap
+//@   ensures[error-means-nothing] result1 != nil ==> result0 == nil
+//@   assert call:queryBlockRange arg0 == p && arg1 == tx && arg2 == fromBlock && arg3 == toBlock && arg4 == "bridge"
 //@ func (p *processor) GetClaims (p, ctx, fromBlock, toBlock)
 //@   props C02 C03
-//@   trusted
 //@   consttext "claim"
+//@   requires p != nil && p.log != nil
+//@   modifies heap
+//@   ensures[error-means-nothing] result1 != nil ==> result0 == nil
+//@   assert call:queryBlockRange arg0 == p && arg1 == tx && arg2 == fromBlock && arg3 == toBlock && arg4 == "claim"
 
 // ---- decoding a watched log into an event of the block (C01, C03, C05): exactly one event is added per log, and the
 // bridge / claim record carries the block's number, the log's position and, field by field, what the contract binding
